@@ -136,6 +136,62 @@ def lower_records(trees, report):
             for K in recs:
                 if _ann_is(fnode.returns, K):
                     returns[(fnode.name, cls is not None)] = K
+    # ... and by what they return: every `return` is a construction of K
+    for rel, tree in trees.items():
+        for q, fnode, cls in functions_of(tree):
+            rets = [n for n in _walk_own(fnode) if isinstance(n, ast.Return)]
+            if rets and (fnode.name, cls is not None) not in returns:
+                for K in recs:
+                    if all(isinstance(r.value, ast.Call) and isinstance(r.value.func, ast.Name) and r.value.func.id == K for r in rets):
+                        returns[(fnode.name, cls is not None)] = K
+    # parameters that every call site in the package fills with a K value (two rounds: values passed on)
+    param_types = {}  # (function name, is method, parameter name) -> K
+    all_funcs = [(rel, q, fnode, cls) for rel, tree in trees.items() for q, fnode, cls in functions_of(tree)]
+    by_name = {}
+    for rel, q, fnode, cls in all_funcs:
+        by_name.setdefault((fnode.name, cls is not None), []).append(fnode)
+    for _round in range(3):
+        seen_args = {}
+        for rel, q, fnode, cls in all_funcs:
+            typed_here = {}
+            for a_ in fnode.args.args + fnode.args.kwonlyargs:
+                for K in recs:
+                    if _ann_is(a_.annotation, K) or param_types.get((fnode.name, cls is not None, a_.arg)) == K:
+                        typed_here[a_.arg] = K
+            for n in ast.walk(fnode):
+                if isinstance(n, ast.Assign) and len(n.targets) == 1 and isinstance(n.targets[0], ast.Name):
+                    for K in recs:
+                        if _is_record_value(n.value, K, {k for k, v in typed_here.items() if v == K}, returns):
+                            typed_here[n.targets[0].id] = K
+            for c in ast.walk(fnode):
+                if not isinstance(c, ast.Call):
+                    continue
+                if isinstance(c.func, ast.Name):
+                    key = (c.func.id, False)
+                elif isinstance(c.func, ast.Attribute) and isinstance(c.func.value, ast.Name) and c.func.value.id in ("self", "cls"):
+                    key = (c.func.attr, True)
+                else:
+                    continue
+                tgt = by_name.get(key)
+                if not tgt or len(tgt) != 1:
+                    continue
+                params = [x.arg for x in tgt[0].args.args]
+                if key[1]:
+                    params = params[1:]
+                if any(isinstance(x, ast.Starred) for x in c.args) or any(k.arg is None for k in c.keywords):
+                    for pn in params:
+                        seen_args.setdefault(key + (pn,), []).append(None)
+                    continue
+                for pn, av in list(zip(params, c.args)) + [(k.arg, k.value) for k in c.keywords]:
+                    kk = None
+                    for K in recs:
+                        if _is_record_value(av, K, {k for k, v in typed_here.items() if v == K}, returns):
+                            kk = K
+                    seen_args.setdefault(key + (pn,), []).append(kk)
+        new = {k: v[0] for k, v in seen_args.items() if v and v[0] is not None and all(x == v[0] for x in v)}
+        if new == param_types:
+            break
+        param_types = new
     for K, info in recs.items():
         fields = info["fields"]
         unique = {f: all(not _other_owner(trees, f, K, recs) for _ in [0]) for f in fields}
@@ -169,7 +225,7 @@ def lower_records(trees, report):
             for q, fnode, cls in functions_of(tree):
                 typed = set()
                 for a in fnode.args.args + fnode.args.kwonlyargs + fnode.args.posonlyargs:
-                    if _ann_is(a.annotation, K):
+                    if _ann_is(a.annotation, K) or param_types.get((fnode.name, cls is not None, a.arg)) == K:
                         typed.add(a.arg)
                 for _ in range(3):
                     for n in ast.walk(fnode):
@@ -284,19 +340,33 @@ def _arg_at(call, fnode, i):
 
 
 def flatten_tuple_params(trees, unknown, report):
+    inv = load_inventory()
     funcs = _module_functions(trees)
     cands = {}  # (name, i) -> arity or None
     for name, defs in funcs.items():
         if len(defs) != 1:
             continue
         rel, fnode = defs[0]
-        if (rel, name) not in unknown or fnode.args.vararg or fnode.args.kwarg or fnode.args.posonlyargs or fnode.decorator_list:
+        if fnode.args.vararg or fnode.args.kwarg or fnode.args.posonlyargs or fnode.decorator_list:
             continue
+        # a function the reference knows takes part only with parameters the reference does not know
+        ref_params = None
+        if (rel, name) not in unknown:
+            r = (inv or {}).get("modules", {}).get(rel, {}).get(name)
+            if r is None:
+                continue
+            ref_params = set(r.get("params", ()))
         # the function is only ever called
         callf = {id(n.func) for t in trees.values() for n in ast.walk(t) if isinstance(n, ast.Call)}
         if any(isinstance(n, ast.Name) and n.id == name and id(n) not in callf and isinstance(n.ctx, ast.Load) for t in trees.values() for n in ast.walk(t)):
             continue
         for i, p in enumerate(_pos_params(fnode)):
+            if ref_params is not None and p in ref_params:
+                continue
+            # no default value for a carrier
+            nd = len(fnode.args.defaults)
+            if nd and i >= len(fnode.args.args) - nd:
+                continue
             cands[(name, i)] = None
     if not cands:
         return set()
@@ -305,6 +375,7 @@ def flatten_tuple_params(trees, unknown, report):
         rel, fnode = funcs[name][0]
         p = _pos_params(fnode)[i]
         arity = None
+        min_arity = [0]
         pm = {}
         for n in ast.walk(fnode):
             for c in ast.iter_child_nodes(n):
@@ -319,6 +390,9 @@ def flatten_tuple_params(trees, unknown, report):
                     if arity not in (None, k):
                         return None
                     arity = k
+                    continue
+                if isinstance(par, ast.Subscript) and par.value is n and isinstance(par.ctx, ast.Load) and isinstance(par.slice, ast.Constant) and isinstance(par.slice.value, int) and not isinstance(par.slice.value, bool) and par.slice.value >= 0:
+                    min_arity[0] = max(min_arity[0], par.slice.value + 1)
                     continue
                 if isinstance(par, ast.Call) and isinstance(par.func, ast.Name) and par.func.id in funcs and len(funcs[par.func.id]) == 1:
                     g = funcs[par.func.id][0][1]
@@ -335,8 +409,12 @@ def flatten_tuple_params(trees, unknown, report):
                 return None
             if isinstance(n, (ast.FunctionDef, ast.Lambda)) and n is not fnode and any(isinstance(x, ast.Name) and x.id == p for x in ast.walk(n)):
                 return None
+        if arity is not None and arity < min_arity[0]:
+            return None
+        min_needed[(name, i)] = min_arity[0]
         return arity if arity is not None else 0
 
+    min_needed = {}
     # greatest fixpoint over the candidate set
     arities = {}
     while True:
@@ -394,6 +472,8 @@ def flatten_tuple_params(trees, unknown, report):
                     if x and y and x != y:
                         return set()
                     arity[(name, i)] = arity[k2] = x or y
+    if any(arity.get(k, 0) < min_needed.get(k, 0) for k in cands):
+        return set()
     cands = {k: v for k, v in cands.items() if arity.get(k, 0) >= 2}
     if not cands:
         return set()
@@ -474,6 +554,15 @@ def flatten_tuple_params(trees, unknown, report):
             return keep
 
         fnode.body = prune(fnode.body) or [ast.copy_location(ast.Pass(), fnode)]
+
+        class Sub(ast.NodeTransformer):
+            def visit_Subscript(self, n):
+                self.generic_visit(n)
+                if isinstance(n.value, ast.Name) and n.value.id == p and isinstance(n.ctx, ast.Load) and isinstance(n.slice, ast.Constant) and isinstance(n.slice.value, int) and 0 <= n.slice.value < len(tn):
+                    return ast.copy_location(ast.Name(id=tn[n.slice.value], ctx=ast.Load()), n)
+                return n
+
+        Sub().visit(fnode)
         ast.fix_missing_locations(fnode)
         changed.add(rel)
         report.append(("flattened-parameter", f"{rel}:{name}:{p}"))
